@@ -50,7 +50,7 @@ def render_cfg(template_text, subst):
 
 
 def _java_cmd(extra_props=()):
-    cmd = ["java", "-XX:+UseParallelGC", "-Xmx6g"]
+    cmd = ["java", "-XX:+UseParallelGC", "-Xmx6g", "-Xss128m"]
     cmd += list(extra_props)
     cmd += ["-cp", JAR, "tlc2.TLC"]
     return cmd
